@@ -258,6 +258,35 @@ def ctor_class_axis(ctx):
                             ('base.rpy2r', lambda a=a, u=u: b.rpy2r(a, a, a, unit=u), 'SO3'), ('base.eul2r', lambda a=a, u=u: b.eul2r(a, a, a, unit=u), 'SO3'),
                             ('SO3.AngVec', lambda a=a, u=u: sm.SO3.AngVec(a, [1, 2, 3], unit=u), 'SO3'), ('base.angvec2r', lambda a=a, u=u: b.angvec2r(a, [1, 2, 3], unit=u), 'SO3')):
             run(ctx, 'C01/%s/stype=%s/a=%g' % (cn, tn, av), cn.split('/')[0], dict(fn=cn, stype=tn, unit=u), kind, f, key=(cn, tn, av))
+    # inputs outside the documented domain of a constructor may be refused, but whatever a constructor RETURNS is a valid member:
+    # the two-argument exponential with a twist that is not a unit twist, and the rotation classes handed a rigid-motion object
+    def run_or_refuse(cid, site, P, kind, f):
+        if not ctx.want(cid):
+            return
+        ctx.case(cid, key=cid)
+        ok, v = call(f)
+        if ok:
+            validate(ctx, cid, site, P, v, kind, None)
+            ctx.cell(site, kind, 'returned')
+        else:
+            ctx.cell(site, kind, 'refused')
+    for wn, w in (('0.5', 0.5), ('2', 2.0), ('13', 13.0)):
+        S6 = np.r_[0.5, -1.0, 0.25, w * alph.unit((1, 2, 3))]
+        for th_ in (0.1, 0.7):
+            for fn_, arg in (('vec', lambda: S6.copy()), ('mat', lambda: ref.skewa(S6))):
+                run_or_refuse('C01/base.trexp/nonunit/|w|=%s/th=%g/%s' % (wn, th_, fn_), 'base.trexp', dict(form=fn_, wmag=wn, domain='outside'), 'SE3', lambda arg=arg, th_=th_: b.trexp(arg(), th_))
+                run_or_refuse('C01/base.trexp/nonunit/so3/|w|=%s/th=%g/%s' % (wn, th_, fn_), 'base.trexp', dict(form=fn_, wmag=wn, domain='outside'), 'SO3',
+                              lambda fn_=fn_, th_=th_: b.trexp(S6[3:].copy() if fn_ == 'vec' else ref.skew(S6[3:]), th_))
+            S3 = np.r_[0.5, -1.0, w]
+            for fn_, arg in (('vec', lambda: S3.copy()), ('mat', lambda: ref.skewa(S3))):
+                run_or_refuse('C01/base.trexp2/nonunit/|w|=%s/th=%g/%s' % (wn, th_, fn_), 'base.trexp2', dict(form=fn_, wmag=wn, domain='outside'), 'SE2', lambda arg=arg, th_=th_: b.trexp2(arg(), th_))
+    T3o = sm.SE3(ref.rt(ref.rotx(0.3), (1.0, 2.0, 3.0)))
+    T2o = sm.SE2(1.0, 2.0, 0.3)
+    for cn, C_, kind, objs in (('SO3', sm.SO3, 'SO3', [('SE3', T3o), ('SE3*', sm.SE3([T3o.A.copy(), T3o.inv().A])), ('[SE3]', [T3o]), ('UQ', sm.UnitQuaternion.Rx(0.3))]),
+                               ('SO2', sm.SO2, 'SO2', [('SE2', T2o), ('[SE2]', [T2o])]), ('SE3', sm.SE3, 'SE3', [('SE2', T2o), ('Twist3', sm.Twist3.Rx(0.3)), ('SO3', sm.SO3.Rx(0.3))]),
+                               ('UnitQuaternion', sm.UnitQuaternion, 'UQ', [('Quaternion', sm.Quaternion([1.0, 2, 3, 4])), ('SE2', T2o)])):
+        for on, o in objs:
+            run_or_refuse('C01/%s/from-object/%s' % (cn, on), cn, dict(cls=cn, arg=on, domain='other-class'), kind, lambda C_=C_, o=o: C_(o))
     for fn in ('Tx', 'Ty', 'Tz'):
         for mn, m in (('0', 0.0), ('1e-6', 1e-6), ('g', -1.5), ('1e6', 1e6)):
             run(ctx, 'C01/SE3.%s/%s' % (fn, mn), 'SE3.' + fn, dict(fn=fn, t=mn), 'SE3', getattr(sm.SE3, fn), m, key=(fn, mn), trivial=(m == 0))
